@@ -36,7 +36,8 @@ def run(F, R, tier):
     fk = F.fn("object::Object::is_a_valid_key")
     if not (R.anchor("PartialEq for Object", feq) and R.anchor("Hash for Object", fh) and R.anchor("is_a_valid_key", fk)):
         return
-    meq, mh = T.top_match(feq), T.top_match(fh)
+    # named intermediates in the arms (`let bits = canonical(..); state.write_u64(bits)`) are substituted first
+    meq, mh = T.top_match(feq, body=H.unlet(H.body_of(feq))), T.top_match(fh, body=H.unlet(H.body_of(fh)))
     if not (R.anchor("eq: match (self, other)", meq) and R.anchor("hash: match self", mh)):
         return
     eqa = T.pair_arms(meq)
